@@ -133,6 +133,10 @@ func (o *oracle) observe(p op, atoms []atom) []violation {
 	for k, v := range o.due {
 		dueBefore[k] = v
 	}
+	notRetriedBefore := map[uint64]bool{}
+	for k, v := range o.notRetried {
+		notRetriedBefore[k] = v
+	}
 	fetchAtBefore := map[uint64]int{}
 	for k, v := range o.fetchAt {
 		fetchAtBefore[k] = v
@@ -253,7 +257,7 @@ func (o *oracle) observe(p op, atoms []atom) []violation {
 			ob, oa := o.owed(dueBefore, key, p.slot), o.owed(o.due, key, p.slot)
 			if len(ob) > 0 && len(oa) > 0 {
 				d := ob[0]
-				vs = append(vs, violation{o.classifyLossFrom(key, fetchAtBefore[key], firstTickOfKey), fmt.Sprintf("tick %d: duty slot %d validator %d tag %d of the successfully fetched assignment of epoch/period %d was not dispatched (nothing was dispatched)", p.slot, d.slot, d.vidx, d.tag, key)})
+				vs = append(vs, violation{o.classifyLossFrom(key, fetchAtBefore[key], notRetriedBefore[key]), fmt.Sprintf("tick %d: duty slot %d validator %d tag %d of the successfully fetched assignment of epoch/period %d was not dispatched (nothing was dispatched)", p.slot, d.slot, d.vidx, d.tag, key)})
 			}
 		}
 		// Retry: an assignment suspended by a failed re-fetch stays suspended only while the beacon node is
@@ -297,11 +301,11 @@ func (o *oracle) owed(due map[uint64][]duty, key, slot uint64) []duty {
 var kindName = map[string]string{"att": "attester", "prop": "proposer", "sync": "sync-committee"}
 
 func (o *oracle) classifyLoss(key uint64, firstTickOfKey bool) string {
-	return o.classifyLossFrom(key, o.fetchAt[key], firstTickOfKey)
+	return o.classifyLossFrom(key, o.fetchAt[key], o.notRetried[key])
 }
 
-func (o *oracle) classifyLossFrom(key uint64, from int, firstTickOfKey bool) string {
-	if o.notRetried[key] {
+func (o *oracle) classifyLossFrom(key uint64, from int, notRetried bool) string {
+	if notRetried {
 		return "C16/" + kindName[o.kind] + "-refetch-not-retried-after-failure"
 	}
 	// A tick handled after a reorg(previous) notice that carries a slot of a LATER epoch: the notice resets the
